@@ -108,6 +108,9 @@ impl StarkProof {
         let layer_log_sizes = self.layer_log_sizes(&self.public_input.dynamic_params)?;
 
         let fri_step_list = fri.fri_step_list;
+        if fri_step_list.is_empty() {
+            anyhow::bail!("Empty fri step list");
+        }
         let log_last_layer_degree_bound = log2_if_power_of_2(fri.last_layer_degree_bound)
             .ok_or(anyhow::anyhow!("Invalid last layer degree bound"))?;
         let fri = FriConfig {
@@ -116,14 +119,18 @@ impl StarkProof {
             inner_layers: fri_step_list[1..]
                 .iter()
                 .zip(layer_log_sizes[2..].iter())
-                .map(|(layer_steps, layer_log_rows)| TableCommitmentConfig {
-                    n_columns: 2_u32.pow(*layer_steps),
-                    vector: VectorCommitmentConfig {
-                        height: *layer_log_rows,
-                        n_verifier_friendly_commitment_layers,
-                    },
+                .map(|(layer_steps, layer_log_rows)| {
+                    Ok(TableCommitmentConfig {
+                        n_columns: 2_u32
+                            .checked_pow(*layer_steps)
+                            .ok_or(anyhow::anyhow!("Invalid fri step"))?,
+                        vector: VectorCommitmentConfig {
+                            height: *layer_log_rows,
+                            n_verifier_friendly_commitment_layers,
+                        },
+                    })
                 })
-                .collect(),
+                .collect::<anyhow::Result<Vec<_>>>()?,
             fri_step_sizes: fri_step_list,
             log_last_layer_degree_bound,
         };
@@ -144,15 +151,23 @@ impl StarkProof {
         dynamic_params: &Option<BTreeMap<String, u32>>,
     ) -> anyhow::Result<u32> {
         let consts = self.public_input.layout.get_dynamics_or_consts(dynamic_params);
-        let effective_component_height = Self::COMPONENT_HEIGHT * consts.cpu_component_step;
-        log2_if_power_of_2(effective_component_height * self.public_input.n_steps)
-            .ok_or(anyhow::anyhow!("Invalid cpu component step"))
+        let effective_component_height = Self::COMPONENT_HEIGHT
+            .checked_mul(consts.cpu_component_step)
+            .ok_or(anyhow::anyhow!("Invalid cpu component step"))?;
+        log2_if_power_of_2(
+            effective_component_height
+                .checked_mul(self.public_input.n_steps)
+                .ok_or(anyhow::anyhow!("Trace length overflow"))?,
+        )
+        .ok_or(anyhow::anyhow!("Invalid cpu component step"))
     }
     fn log_eval_damain_size(
         &self,
         dynamic_params: &Option<BTreeMap<String, u32>>,
     ) -> anyhow::Result<u32> {
-        Ok(self.log_trace_domain_size(dynamic_params)? + self.proof_parameters.stark.log_n_cosets)
+        self.log_trace_domain_size(dynamic_params)?
+            .checked_add(self.proof_parameters.stark.log_n_cosets)
+            .ok_or(anyhow::anyhow!("Evaluation domain size overflow"))
     }
     fn layer_log_sizes(
         &self,
@@ -160,7 +175,13 @@ impl StarkProof {
     ) -> anyhow::Result<Vec<u32>> {
         let mut layer_log_sizes = vec![self.log_eval_damain_size(dynamic_params)?];
         for layer_step in &self.proof_parameters.stark.fri.fri_step_list {
-            layer_log_sizes.push(layer_log_sizes.last().unwrap() - layer_step);
+            layer_log_sizes.push(
+                layer_log_sizes
+                    .last()
+                    .unwrap()
+                    .checked_sub(*layer_step)
+                    .ok_or(anyhow::anyhow!("Fri steps exceed the evaluation domain size"))?,
+            );
         }
         Ok(layer_log_sizes)
     }
@@ -170,10 +191,10 @@ impl StarkProof {
         alpha: BigUint,
     ) -> anyhow::Result<stark_proof::PublicInput> {
         let continuous_page_headers =
-            Self::continuous_page_headers(&public_input.public_memory, z, alpha);
+            Self::continuous_page_headers(&public_input.public_memory, z, alpha)?;
         let main_page = Self::main_page(&public_input.public_memory)?;
         let dynamic_params = public_input.dynamic_params.unwrap_or_default();
-        let memory_segments = Builtin::sort_segments(public_input.memory_segments)
+        let memory_segments = Builtin::sort_segments(public_input.memory_segments)?
             .into_iter()
             .map(|s| SegmentInfo { begin_addr: s.begin_addr, stop_ptr: s.stop_ptr })
             .collect::<Vec<_>>();
@@ -224,9 +245,9 @@ impl StarkProof {
         public_memory: &[PublicMemoryElement],
         z: BigUint,
         alpha: BigUint,
-    ) -> Vec<(Felt, Felt, Felt, Felt)> {
+    ) -> anyhow::Result<Vec<(Felt, Felt, Felt, Felt)>> {
         let (_pages, page_prods) =
-            Self::get_pages_and_products(public_memory, z.clone(), alpha.clone());
+            Self::get_pages_and_products(public_memory, z.clone(), alpha.clone())?;
 
         let mut start_address: HashMap<Felt, Felt> = HashMap::new();
         let mut size: HashMap<Felt, Felt> = HashMap::new();
@@ -235,7 +256,8 @@ impl StarkProof {
         for access in public_memory {
             let page_id = Felt::from(access.page);
             let addr = Felt::from(access.address);
-            let val = Felt::from_hex(&access.value).unwrap();
+            let val = Felt::from_hex(&access.value)
+                .map_err(|_| anyhow::anyhow!("Invalid memory value"))?;
 
             start_address.entry(page_id).or_insert(addr);
             if page_id == Felt::ZERO {
@@ -245,14 +267,14 @@ impl StarkProof {
             // Ensure the address is correct
             let current_size = data.entry(page_id).or_default().len();
             let expected_address = start_address.get(&page_id).unwrap() + Felt::from(current_size);
-            assert_eq!(addr, expected_address);
+            anyhow::ensure!(addr == expected_address, "Invalid continuous page address");
 
             data.get_mut(&page_id).unwrap().push(val);
             *size.entry(page_id).or_insert(Felt::ZERO) += Felt::ONE;
         }
 
         let n_pages = size.len() + 1; // +1 because size does not count page 0
-        assert_eq!(page_prods.len(), n_pages);
+        anyhow::ensure!(page_prods.len() == n_pages, "Invalid public memory pages");
 
         let mut headers = Vec::new();
         let mut sorted_keys: Vec<_> = size.keys().collect();
@@ -260,7 +282,7 @@ impl StarkProof {
 
         for (i, page_id) in sorted_keys.into_iter().enumerate() {
             let page_index = i + 1;
-            assert_eq!(Felt::from(page_index), *page_id);
+            anyhow::ensure!(Felt::from(page_index) == *page_id, "Invalid public memory page id");
             let hash_value = Self::compute_hash_on_elements(data.get(page_id).unwrap());
             let header = (
                 *start_address.get(page_id).unwrap(),
@@ -271,7 +293,7 @@ impl StarkProof {
             headers.push(header);
         }
 
-        headers
+        Ok(headers)
     }
     fn compute_hash_on_elements(data: &[Felt]) -> Felt {
         let hash = data.iter().fold(Felt::ZERO, |acc, value| pedersen_hash(&acc, value));
@@ -281,7 +303,7 @@ impl StarkProof {
         public_memory: &[PublicMemoryElement],
         z: BigUint,
         alpha: BigUint,
-    ) -> (HashMap<Felt, Vec<Felt>>, HashMap<Felt, Felt>) {
+    ) -> anyhow::Result<(HashMap<Felt, Vec<Felt>>, HashMap<Felt, Felt>)> {
         let mut pages = HashMap::new();
         let mut page_prods = HashMap::new();
 
@@ -291,7 +313,8 @@ impl StarkProof {
         for cell in public_memory {
             let page_id = Felt::from(cell.page);
             let addr = Felt::from(cell.address);
-            let val = Felt::from_hex(&cell.value).unwrap();
+            let val =
+                Felt::from_hex(&cell.value).map_err(|_| anyhow::anyhow!("Invalid memory value"))?;
 
             // Insert or get the vector for the current page_id
             let page = pages.entry(page_id).or_insert_with(Vec::new);
@@ -304,7 +327,7 @@ impl StarkProof {
             *page_prod *= product;
         }
 
-        (pages, page_prods)
+        Ok((pages, page_prods))
     }
     fn stark_unsent_commitment(&self, annotations: &Annotations) -> StarkUnsentCommitment {
         StarkUnsentCommitment {
